@@ -50,6 +50,22 @@ def perturb_leg(rng, cfg, sym, leg):
         return leg
     tD = dict(zip(leg.t, leg.D))
     orig = dict(tD)
+    if rng.random() < 0.3 and len(tD) > 0:
+        # relabel: one sector moves to a fresh charge with the SAME dimension at the SAME position, so the tuple of dimensions of the leg is
+        # unchanged while its charges differ (fused operands then have equal hfs.D but different hfs.t)
+        ts0 = sorted(tD)
+        k0 = rng.randrange(len(ts0))
+        cands = []
+        for _ in range(12):
+            t = rcharge(rng, sym, wide=True)
+            if t not in orig and 1 + sum(abs(x) for x in t) % 3 == tD[ts0[k0]] and sorted(ts0[:k0] + [t] + ts0[k0 + 1:]).index(t) == k0:
+                cands.append(t)
+        if cands:
+            t = cands[0]
+            D0 = tD.pop(ts0[k0])
+            tD[t] = D0
+            ts = sorted(tD)
+            return yastn.Leg(cfg, s=leg.s, t=ts, D=[tD[t_] for t_ in ts])
     r = rng.random()
     if r < 0.4 and len(tD) > 1:
         tD.pop(rng.choice(sorted(tD)))
@@ -135,6 +151,18 @@ def lazy(rng, a, p=0.5):
 def snapshot(a):
     """byte-level structural snapshot of a tensor (for C15 / C16 bit-identity)"""
     return (a.struct, a.slices, a.hfs, a.mfs, a.trans, a.isdiag, str(a._data.dtype), a._data.tobytes())
+
+
+def history_supports(x):
+    """fusion history vs stored sectors: undoing every fusion of x must succeed, give a consistent tensor and lose no data; returns None or a message"""
+    try:
+        y = fully_unfused(x)
+        y.is_consistent()
+        if abs(float(y.norm()) - float(x.norm())) > 1e-9 * max(1.0, float(x.norm())):
+            return 'unfusing changes the norm from %r to %r' % (float(x.norm()), float(y.norm()))
+    except (yastn.YastnError, ValueError, IndexError, KeyError, AssertionError) as e:
+        return 'cannot be unfused: %s: %s' % (type(e).__name__, str(e)[:150])
+    return None
 
 
 def fully_unfused(a):
@@ -606,6 +634,8 @@ def sc_fuse(rng, opts):
     b = rtensor(rng, cfg, lb, n=allowed_charge(rng, cfg, sym, lb), cplx=rng.random() < 0.3, drop=rng.choice([0, 0.3]))
     c2 = rtensor(rng, cfg, [l.conj() for l in lb], n=a.n, cplx=False, drop=rng.choice([0, 0.3]))
 
+    inter = []
+
     def fn():
         fa = fuse(a)
         if op == 'roundtrip':
@@ -614,13 +644,16 @@ def sc_fuse(rng, opts):
             # three fused operands: the first and the last share their fusion history, the middle one has different sector content
             a3 = rtensor(random.Random(r * 7919 + len(groups)), cfg, list(a.get_legs()), n=a.n, cplx=False)
             fn.a3 = a3
-            return unfuse(yastn.add(fa, fuse(c2), fuse(a3)))
+            s3 = yastn.add(fa, fuse(c2), fuse(a3))
+            inter.append(s3)
+            return unfuse(s3)
         if op == 'add_transposed':
             # both (hard- or meta-) fused operands carry the SAME pending transposition; their fused legs differ in sector content
             f1 = a.fuse_legs(axes=tuple(groups), mode=mode).transpose(tuple(qperm))
             f2 = c2.fuse_legs(axes=tuple(groups), mode=mode).transpose(tuple(qperm))
             ax = tuple(k for k, gi in enumerate(qperm) if isinstance(groups[gi], tuple))
             r_ = f1 + f2
+            inter.append(r_)
             return r_.unfuse_legs(axes=ax) if ax else r_
         if op == 'roundtrip_transposed':
             # fuse (one level), transpose the fused tensor lazily, then unfuse all fused legs at once
@@ -639,7 +672,9 @@ def sc_fuse(rng, opts):
             nf = fa.ndim
             return yastn.tensordot(fa, fb, axes=(tuple(range(nf)), tuple(range(nf))))
         if op == 'add':
-            return unfuse(fa + fuse(c2))
+            s2 = fa + fuse(c2)
+            inter.append(s2)
+            return unfuse(s2)
         return yastn.vdot(fa, fuse(c2))
 
     def oracle(c):
@@ -669,7 +704,7 @@ def sc_fuse(rng, opts):
         if op == 'add':
             return dict(dense=(da + dc).transpose(flat), legs={k: un[i] for k, i in enumerate(flat)}, n=a.n)
         return dict(number=np.sum(da.conj() * dc))
-    return dict(fn=fn, oracle=oracle, operands=[a, b, c2], describe=dict(sym=sym, op=op, groups=groups, mode=mode, depth2=depth2, mode2=mode2,
+    return dict(fn=fn, oracle=oracle, operands=[a, b, c2], intermediates=inter, describe=dict(sym=sym, op=op, groups=groups, mode=mode, depth2=depth2, mode2=mode2,
                 trans=a.trans, policy=cfg.tensordot_policy))
 
 
